@@ -1279,7 +1279,12 @@ func (c Clause) String() string {
 	if c.Transform == nil {
 		return fmt.Sprintf("%s :- %s.", headStr, premises.String())
 	}
-	return fmt.Sprintf("%s :- %s |> %s.", headStr, premises.String(), c.Transform.String())
+	var transforms strings.Builder
+	for t := c.Transform; t != nil; t = t.Next {
+		transforms.WriteString(" |> ")
+		transforms.WriteString(t.String())
+	}
+	return fmt.Sprintf("%s :- %s%s.", headStr, premises.String(), transforms.String())
 }
 
 func (t Transform) String() string {
